@@ -120,6 +120,7 @@ func OpenChain(disk *simdb.Disk, o ChainOpts) (*Chain, error) {
 		return nil, fmt.Errorf("NewLinkApplication: %v", err)
 	}
 	c.App.SetLogger(logger)
+	c.App.SetConm(p2p.VerifNewConManager(logger)) // node.NewNode hands the application the switch's connection manager
 
 	c.BlockExec = cs.NewBlockExecutor(statusDB, logger, c.EvPool)
 
